@@ -170,6 +170,53 @@ pub fn history(cfg: &Cfg, rep: &mut Report, fl: Flavour, h: u64, steps: usize) {
             let now = tok.observe();
             rep.check("res", now == pre, &format!("C01/res/{}/delegate/changed-balances", fl.name()), || format!("delegate({who} -> {to}) moved token state {pre:?} -> {now:?}"));
         }
+        // the low-level primitive behind every movement, in its four shapes (base wrapper only): whatever
+        // it does, supply and balances move together - (None, None) is "mint and burn at once", a no-op
+        if fl == Flavour::Base && rng.chance(1, 12) {
+            let a: i128 = *rng.pick(&[0i128, 1, 7, 1000, m.bal[0], i128::MAX - m.supply, (i128::MAX - m.supply).saturating_add(1), -1]);
+            let (fi, ti) = (rng.idx(n), rng.idx(n));
+            let shape = rng.idx(4);
+            let (from, to): (Option<soroban_sdk::Address>, Option<soroban_sdk::Address>) = match shape {
+                0 => (None, None),
+                1 => (None, Some(tok.u[ti].clone())),
+                2 => (Some(tok.u[fi].clone()), None),
+                _ => (Some(tok.u[fi].clone()), Some(tok.u[ti].clone())),
+            };
+            w.env.mock_all_auths();
+            let r: Result<(), Fail> = crate::world::invoke(&w.env, &tok.addr, "raw_update", crate::args!(&w.env, from, to, a));
+            let now = tok.observe();
+            rep.evaluations += 1;
+            rep.op(format!("#{step} raw update shape {shape} (from {fi}, to {ti}) amount {a} -> {}", tag(&r)));
+            rep.case(format!("base/raw_update/shape={shape}/{}", tag(&r)));
+            let mut want_state = pre.clone();
+            let ok_model = a >= 0 && match shape {
+                0 => m.supply.checked_add(a).is_some(),
+                1 => m.supply.checked_add(a).is_some(),
+                2 => m.bal[fi] >= a,
+                _ => m.bal[fi] >= a,
+            };
+            if ok_model {
+                match shape {
+                    0 => {}
+                    1 => { want_state.bal[ti] += a; want_state.supply += a; }
+                    2 => { want_state.bal[fi] -= a; want_state.supply -= a; }
+                    _ => { want_state.bal[fi] -= a; want_state.bal[ti] += a; }
+                }
+            }
+            if r.is_ok() {
+                rep.check("inv", now.bal.iter().sum::<i128>() == now.supply && now.bal.iter().all(|b| *b >= 0), "C01/inv/base/raw_update/sum-of-balances", || format!("after Base::update shape {shape} amount {a}: balances {:?} supply {}", now.bal, now.supply));
+                rep.check("ref", ok_model && now == want_state, "C01/ref/base/raw_update/state", || format!("Base::update shape {shape} (from {fi}, to {ti}) amount {a}: observed {now:?}, expected {want_state:?} (precondition met: {ok_model})"));
+                match shape {
+                    1 => { m.bal[ti] += a; m.supply += a; fold.log.push((cur, "mint".into(), vec![ti], a)); }
+                    2 => { m.bal[fi] -= a; m.supply -= a; fold.log.push((cur, "burn".into(), vec![fi], a)); }
+                    3 => { m.bal[fi] -= a; m.bal[ti] += a; fold.log.push((cur, "transfer".into(), vec![fi, ti], a)); }
+                    _ => {}
+                }
+            } else {
+                rep.check("res", now == pre, "C01/res/base/raw_update/state-changed-by-failed-call", || format!("failed Base::update moved state {pre:?} -> {now:?}"));
+            }
+            pre = now;
+        }
         let want = m.predict(&op, cur, max_live, fl);
         // a transfer to the classic account names it as a multiplexed address two times out of three:
         // the tokens must be credited to (and every gate evaluated on) the underlying account
